@@ -21,7 +21,8 @@ import (
 // <ops> is a comma separated history; every step is <side><op>[:<n>] with side `o` (applied to
 // the original) or `c` (applied to the clone).  The property oracle parses the text, clones the
 // statement and replays the history.  Before and after every step it takes a reflective deep
-// snapshot of both sides (values, nil-ness, shape and the pointer-identity graph) and checks
+// snapshot of both sides (an address-free unfolding: values, nil-ness, shape; and an exact one
+// with every address, i.e. the pointer-identity graph) and checks
 //
 //	faithful   right after every Clone the clone's address-free snapshot equals the original's
 //	disjoint   original and clone share no mutable object (pointer target or slice backing array;
@@ -35,9 +36,10 @@ import (
 // ---- snapshots ----
 
 type snapshot struct {
-	canon string             // address-free: types, values, nil-ness, shape, internal aliasing (first-visit numbering)
-	exact string             // the same walk with real addresses
+	canon string             // address-free unfolding: types, values, nil-ness, shape (a shared sub-tree is unfolded at every occurrence; a cycle is cut with a back-reference)
+	exact string             // the same walk with real addresses (so aliasing and re-pointing show)
 	mut   map[uintptr]string // mutable objects reached: pointer targets and slice element slots (up to cap)
+	dag   bool               // some node is reached along two paths
 }
 
 var (
@@ -47,15 +49,17 @@ var (
 )
 
 type snapper struct {
-	c, e strings.Builder
-	seen map[uintptr]int
-	mut  map[uintptr]string
+	c, e   strings.Builder
+	onPath map[uintptr]int // depth at which the pointer was entered on the current path
+	depth  int
+	mut    map[uintptr]string
+	dag    bool
 }
 
 func takeSnapshot(v interface{}) snapshot {
-	s := &snapper{seen: map[uintptr]int{}, mut: map[uintptr]string{}}
+	s := &snapper{onPath: map[uintptr]int{}, mut: map[uintptr]string{}}
 	s.walk(reflect.ValueOf(v))
-	return snapshot{s.c.String(), s.e.String(), s.mut}
+	return snapshot{s.c.String(), s.e.String(), s.mut, s.dag}
 }
 
 func (s *snapper) both(format string, a ...interface{}) {
@@ -82,18 +86,26 @@ func (s *snapper) walk(v reflect.Value) {
 		}
 		addr := v.Pointer()
 		zeroSize := v.Type().Elem().Size() == 0
-		if k, ok := s.seen[addr]; ok && !zeroSize {
-			s.both("^%d", k)
+		if zeroSize {
+			s.both("&")
+			s.walk(v.Elem())
 			return
 		}
-		k := len(s.seen)
-		if !zeroSize {
-			s.seen[addr] = k
-			s.mut[addr] = v.Type().String()
-			fmt.Fprintf(&s.e, "@%x", addr)
+		if d, ok := s.onPath[addr]; ok {
+			s.both("^cycle%d", s.depth-d) // cycle-safe: cut at the second visit on one path
+			return
 		}
-		s.both("&%d", k)
+		if _, ok := s.mut[addr]; ok {
+			s.dag = true
+		}
+		s.mut[addr] = v.Type().String()
+		fmt.Fprintf(&s.e, "@%x", addr)
+		s.both("&")
+		s.onPath[addr] = s.depth
+		s.depth++
 		s.walk(v.Elem())
+		s.depth--
+		delete(s.onPath, addr)
 	case reflect.Interface:
 		if v.IsNil() {
 			s.both("nil-iface")
@@ -784,7 +796,7 @@ func runCloneHistory1(args []string) (verdict, class, final string) {
 	if sh := sharedMutable(so, sc); sh != "" {
 		return "clone shares mutable objects with its original: " + sh, class, ""
 	}
-	panics := 0
+	panics, dag := 0, false
 	for i, st := range steps {
 		x, y := orig, clone
 		if st.side == 'c' {
@@ -806,6 +818,7 @@ func runCloneHistory1(args []string) (verdict, class, final string) {
 			return where + failure, class, ""
 		}
 		ax, ay := takeSnapshot(x), takeSnapshot(y)
+		dag = dag || ax.dag
 		if ay.exact != by.exact {
 			return where + "the other side changed: " + firstDiff(by.canon, ay.canon), class, ""
 		}
@@ -822,6 +835,9 @@ func runCloneHistory1(args []string) (verdict, class, final string) {
 				clone = repl
 			}
 		}
+	}
+	if dag {
+		class += "+dag"
 	}
 	if panics > 0 {
 		class += "+panic"
